@@ -63,7 +63,8 @@ class C10(Check):
                'solver': {'S-run-euler': rng.choice(['euler', 'euler', 'heun']), 'S-run-scipy': 'scipy'}.get(stratum, 'scipy'),
                'vectorize': (stratum == 'S-edges-vec') or (stratum not in ('S-edges',) and rng.random() < 0.4),
                'adaptive_func': True if edges_mode else rng.random() < 0.5,
-               'probes': [[rng.uniform(0.0, 2.0), rng.randint(0, 50)] for _ in range(6)]}
+               'probes': [[rng.uniform(0.0, 2.0), rng.randint(0, 50)] for _ in range(6)],
+               'hist_capacity': rng.choice([1, 2, 3, 8, 1024])}
         if stratum == 'S-edges':
             cfg['vectorize'] = False
         return {'spec': spec, 'cfg': cfg}
@@ -205,6 +206,10 @@ class C10(Check):
         log = []
 
         class RecHist(RealHist):
+            # tuning knob randomised per run: with a small initial capacity the history grows several times within a
+            # short simulation, so growth is part of what the run-level laws see
+            _INITIAL_CAPACITY = cfg.get('hist_capacity', 1024)
+
             def update(self, t, y):
                 log.append(('u', float(t), np.array(y, copy=True)))
                 return RealHist.update(self, t, y)
